@@ -140,6 +140,15 @@ func w1fTie(r *Result, dp *DriverPool, rng *rand.Rand, ncases int) {
 			c.K, c.Mode = k, rng.Intn(4)
 			cases = append(cases, c)
 		}
+		if kind == 1 && n > 20 {
+			// io.ByteWriter sink failing ONCE in the middle of an operation: the writer goes on with a half-encoded
+			// operation behind it; every later call and all bytes are compared with Model/Writer1G.lean
+			for j := 0; j < 12; j++ {
+				c := base
+				c.K, c.Mode = 14+rng.Intn(n-14), 0
+				cases = append(cases, c)
+			}
+		}
 	}
 	var wg sync.WaitGroup
 	sem := make(chan struct{}, 16)
@@ -157,6 +166,7 @@ func w1fTie(r *Result, dp *DriverPool, rng *rand.Rand, ncases int) {
 				return
 			}
 			goCalls, sink, ncalls, open := goW1F(cs)
+			w1gCompare(r, dp, cs, goCalls, sink, ncalls, open)
 			r.mu.Lock()
 			r.TracesVsImpl++
 			r.mu.Unlock()
@@ -229,4 +239,67 @@ func w1fTie(r *Result, dp *DriverPool, rng *rand.Rand, ncases int) {
 		}(cs)
 	}
 	wg.Wait()
+}
+
+// w1gCompare: the same run against Model/Writer1G.lean, which stays exact after the fault: EVERY call of the history
+// (n, error class, sink length), the final sink bytes and the number of sink calls must be equal.
+func w1gCompare(r *Result, dp *DriverPool, cs w1fCase, goCalls []string, sink []byte, ncalls int, open string) {
+	c := cs.Cfg
+	q := fmt.Sprintf("w1grun %d %d %d %d %d %d %d %d %d %d %s", cs.Kind, c.Matcher, (c.PB*5+c.LP)*9+c.LC, c.DictCap, c.BufSize, b2i(c.SizeInHeader), c.Size, b2i(c.EOSMarker), cs.K, cs.Mode, strings.Join(cs.Calls, " "))
+	rep, err := dp.Ask(q)
+	if err != nil {
+		r.Violate("broken-correspondence", "driver", cs, err.Error())
+		return
+	}
+	r.Inc(fmt.Sprintf("writer1g_runs_kind%d", cs.Kind))
+	if strings.HasPrefix(rep, "open:") || open != "" {
+		if rep != "open:"+open {
+			r.Violate("broken-correspondence", "writer1G NewWriter", cs, fmt.Sprintf("NewWriter: go %q, model %q", open, truncate(rep, 60)))
+		}
+		return
+	}
+	parts := strings.Split(rep, " | ")
+	if len(parts) != 3 {
+		r.Violate("broken-correspondence", "writer1G: bad driver reply", cs, truncate(rep, 200))
+		return
+	}
+	m := strings.Fields(parts[0])
+	after := false
+	for i, g := range goCalls {
+		if i >= len(m) || m[i] != g {
+			got := "<none>"
+			if i < len(m) {
+				got = m[i]
+			}
+			kind := "broken-correspondence"
+			if strings.Contains(g, ":panic@") {
+				kind = "counterexample"
+			}
+			when := "before or at the fault"
+			if after {
+				when = "AFTER the call that hit the fault"
+			}
+			r.Violate(kind, "writer1G call result", cs, fmt.Sprintf("call %d (%s, %s): the real lzma.Writer returned n:err@sink = %s, Model/Writer1G.lean says %s", i, cs.Calls[i][:1], when, g, got))
+			return
+		}
+		if strings.Contains(g, ":sink@") {
+			if after {
+				r.Inc("writer1g_error_again_after_fault")
+			}
+			after = true
+		} else if after {
+			r.Inc("writer1g_calls_compared_after_fault")
+		}
+	}
+	if len(m) != len(goCalls) {
+		r.Violate("broken-correspondence", "writer1G call count", cs, fmt.Sprintf("the real writer was called %d times, the model lists %d calls", len(goCalls), len(m)))
+		return
+	}
+	if strings.TrimSpace(parts[1]) != hxe(sink) {
+		r.Violate("broken-correspondence", "writer1G sink bytes", cs, fmt.Sprintf("sink holds %d bytes, the model's sink %d (or different content)", len(sink), len(strings.TrimSpace(parts[1]))/2))
+		return
+	}
+	if strings.TrimSpace(parts[2]) != fmt.Sprint(ncalls) {
+		r.Violate("broken-correspondence", "writer1G sink calls", cs, fmt.Sprintf("the sink was called %d times, the model says %s", ncalls, parts[2]))
+	}
 }
